@@ -16,4 +16,5 @@ func TestCheck(t *testing.T) {
 	defer run.Finish()
 	// Replay files carry {"part":"a"|"b", ...}; every part ignores the inputs of the other.
 	checkStructure(run)
+	checkRuntime(t, run)
 }
